@@ -93,7 +93,14 @@ def run(ctx, rep):
                          {'scenario': sc, 'creds': d})
         # other representations of the same credentials (real code only)
         ctxobj = oslo_context.RequestContext(**kw)
-        for rep_name, creds in (('context', ctxobj), ('policy_values', ctxobj.to_policy_values())):
+        reps = [('context', ctxobj), ('policy_values', ctxobj.to_policy_values())]
+        if d.get('system'):
+            # the legacy spelling on a policy-values mapping: built without a system scope, `system` assigned afterwards
+            kw2 = {k: v for k, v in kw.items() if k != 'system_scope'}
+            pv = oslo_context.RequestContext(**kw2).to_policy_values()
+            pv['system'] = d['system']
+            reps.append(('policy_values+system', pv))
+        for rep_name, creds in reps:
             sc2 = dict(sc, queries=[dict(q, creds=creds) for q in sc['queries']])
             outs2 = _impl_with_creds(sc2)
             if outs2 != outs:
